@@ -58,8 +58,8 @@ TOLERANCES = {'transform values': TOL, 'invariance plain': TOL, 'invariance whit
               'quantile threshold gap below which geo-topological is undefined': GAP_MIN}
 BOUNDS = {
     'quick': {'alphabets': ['{-1,0,1,2}^3 singles + all ordered pairs', '{0,1,2}^6 singles + 2 partners'],
-              'nan_masks': 'n=3: all masks (weight<=3) singles, all 8x8 mask pairs on 3 partners; '
-                           'n=4: weight<=2',
+              'nan_masks': 'n=3: all masks (weight<=3) singles, all 8x8 mask pairs on 2 partners; '
+                           'n=4: weight<=1',
               'generic': {'n_cond': [3, 4, 5, 6], 'fills': 2, 'stack': [1, 2]},
               'invariance': {'tierA': ['{0,1,2}^3 all pairs', '{-1,0,1,2}^3 all pairs (tau-b/kendall: half the maps)'],
                              'generic_fills': 4, 'n_cond': [4, 5]}},
@@ -338,11 +338,11 @@ def run_T(case, ctx, vecs=None):
             ctx.fail('%s|descriptors|pattern_descriptors-differ' % name, case,
                      'source %r result %r' % (src_pdesc, res.pattern_descriptors))
         new = res.dissimilarity_measure
-        if not isinstance(new, str) or not new.strip():
-            ctx.fail('%s|measure-name|not-a-string' % name, case, 'source measure %r, result %r' % (measure, new))
-        elif new == measure:
+        if new == measure:
             ctx.fail('%s|measure-name|not-updated' % name, case,
                      'source measure %r, result measure %r' % (measure, new))
+        elif not isinstance(new, str) or not new.strip():
+            ctx.fail('%s|measure-name|not-a-string' % name, case, 'source measure %r, result %r' % (measure, new))
 
 
 # ------------------------------------------------------------------ stack sources
@@ -627,13 +627,13 @@ def shards(tier, seed):
             out.append({'kind': 'T', 't': 'single', 'alpha': 'm1012^6', 'rows': [a, a + 256]})
     # ---- T: NaN masks for rank_transform
     out.append({'kind': 'T', 't': 'nan-single', 'alpha': 'm1012^3', 'rows': [0, 64], 'maxw': 3})
-    for a in range(0, 64, 8 if not th else 4):
-        out.append({'kind': 'T', 't': 'nan-pairs', 'alpha': 'm1012^3', 'rows': [a, a + (8 if not th else 4)],
-                    'maxw': 3, 'partners': 12 if th else 3})
-    step = 81 if not th else 27
+    for a in range(0, 64, 4 if not th else 1):
+        out.append({'kind': 'T', 't': 'nan-pairs', 'alpha': 'm1012^3', 'rows': [a, a + (4 if not th else 1)],
+                    'maxw': 3, 'partners': 12 if th else 2})
+    step = 81 if not th else 9
     for a in range(0, 729, step):
         out.append({'kind': 'T', 't': 'nan-single', 'alpha': '012^6', 'rows': [a, a + step],
-                    'maxw': 3 if th else 2})
+                    'maxw': 3 if th else 1})
     # ---- T: generic fills
     for n_cond in (3, 4, 5, 6):
         for fill in range(8 if th else 2):
